@@ -81,6 +81,33 @@ func StringKeywordsAsNames(toks []Tok) []Tok {
 	return out
 }
 
+// StringKeywordVariants returns every way of reading the String / BlockString
+// tokens whose value is a keyword as Name tokens (the library decides per
+// position: such a string may still be an ordinary string or a description).
+// The unchanged stream is not included.
+func StringKeywordVariants(toks []Tok) [][]Tok {
+	var pos []int
+	for i, t := range toks {
+		if (t.Kind == KString || t.Kind == KBlockString) && (t.Val == "on" || t.Val == "implements") {
+			pos = append(pos, i)
+		}
+	}
+	if len(pos) > 4 {
+		pos = pos[:4]
+	}
+	var out [][]Tok
+	for mask := 1; mask < 1<<len(pos); mask++ {
+		v := append([]Tok(nil), toks...)
+		for b, p := range pos {
+			if mask&(1<<b) != 0 {
+				v[p].Kind = KName
+			}
+		}
+		out = append(out, v)
+	}
+	return out
+}
+
 // RefQuery parses toks (comments already removed).
 func RefQuery(toks []Tok, lib Liberties) (ok bool, ev Events) {
 	lenientVarDirectives := lib.VarInVarDefDirective
